@@ -167,6 +167,10 @@ MUTANTS = [
      "        row_index = G[1:Nx+1]  # main diagonal (only internal cells)\n        return csr_array((AP_diag, (row_index, row_index)),",
      "        row_index = G[1:Nx+1]  # main diagonal (only internal cells)\n        return csr_array((np.hstack([AP_diag, AP_diag[-1:]]), (np.hstack([row_index, G[Nx+1:Nx+2]]), np.hstack([row_index, G[Nx+1:Nx+2]]))),",
      ["C04"], "caught"),
+    ("dirichlet-fastpath-assumes-b-one", B,
+     "    else:\n        phiBC = np.hstack([phi[-1], phi, phi[0]])\n    return phiBC",
+     "        if BC.left.a.item() == 0:\n            phiBC[0] = 2*BC.left.c.item() - phi[0]\n    else:\n        phiBC = np.hstack([phi[-1], phi, phi[0]])\n    return phiBC",
+     ["C03"], "caught"),
     # ---------------------------------------------------------------- C12
     ("transient-drops-alpha-rhs", S,
      "    return linearSourceTerm(a/dt), constantSourceTerm(a*phi/dt)",
